@@ -16,7 +16,7 @@ from typing import TYPE_CHECKING, Any
 
 # asimap imports
 #
-from .constants import flag_to_seq
+from .constants import seq_to_flag
 from .generator import get_msg_size, msg_as_string
 from .utils import parsedate
 
@@ -314,9 +314,13 @@ class IMAPSearch:
         #       a decision on whether or not the message is removed from the
         #       recent sequence or not.
         #
-        keyword = flag_to_seq(self.args["keyword"])
-        result = keyword in self.ctx.sequences
-        return result
+        # We compare against the flags as `FETCH FLAGS` reports them (and not
+        # against the names of the MH sequences) so that `KEYWORD Seen` is the
+        # keyword `Seen`, not the system flag `\Seen` whose sequence happens to
+        # have that name.
+        #
+        flags = [seq_to_flag(x) for x in self.ctx.sequences]
+        return self.args["keyword"] in flags
 
     #########################################################################
     #
